@@ -9,6 +9,7 @@ RULE = ("For ~50 parser entry points and well-formed encodings of every structur
         "prefixes, up to 5000 bytes); every code -2..65537 for each of 20 functions that take a type code with 4 buffer lengths; sizes "
         "-5..300 for the integer codecs; every byte value appended to 5 prefixes for the base32/base64 decoders. Distinct non-trivial cases "
         "= sweep events; the number of library calls made inside them is reported as library_calls_inside_sweep_events.")
+RULE += (' Accepted values also get every method WITH arguments called (synthesised argument domains); every exported package-level function of the tree (registry generated from source at build time) is called with 48 (1500) argument combinations; every mapping body <= 5 bytes under every container.')
 ASSUME = [common.TRUSTED, "a call that does not return within the per-call deadline (4 s quick / 10 s thorough) is a hang; real costs are microseconds",
           "methods with parameters are exercised by the other checks' accessor projections, not here"]
 META = {
